@@ -5,7 +5,7 @@ import itertools
 import random
 from typing import Iterable
 
-from .. import astx
+from .. import astx, modgen
 from ..core import REPO
 
 N_CASES = {"quick": 250, "thorough": 250000}
@@ -418,8 +418,93 @@ def run_case(ctx, rnd, pl, ds):
         ctx.sample({"op": op, "lambda": text, "emitted": astx.unparse(r.query_ast)[:400], "invocations": [(e["cb"], e["marker"]) for e in log][:10]})
 
 
+DIRECTED_SRC = modgen.DS_HEADER + '''
+import ast
+from dataclasses import dataclass
+from typing import Iterable, TypeVar
+from func_adl import func_adl_callable, func_adl_callback, func_adl_parameterized_call
+LOG = []
+T = TypeVar("T")
+def cb_prop(s, a, param):
+    LOG.append(("prop", param, ast.unparse(a)))
+    return s.MetaData({"cb": "prop"}), a, float
+def cb_m(s, a):
+    LOG.append(("method", ast.unparse(a)))
+    return s.MetaData({"cb": "method"}), a
+def proc(s, a):
+    LOG.append(("func", ast.unparse(a)))
+    return s.MetaData({"cb": "func"}), a
+# a registered function that has a python body of its own (one line, like a helper)
+@func_adl_callable(proc)
+def scale_impl_c09(x: float, by: float = 2.0) -> float: return x * by
+# a model class that is a dataclass, with a parameterized property
+@dataclass
+class DataJet:
+    n: int
+    @func_adl_parameterized_call(cb_prop)
+    @property
+    def attr(self): ...
+class Jet:
+    @func_adl_callback(cb_m)
+    def pt(self) -> float: ...
+# a model collection declaring an operator of its own, with its own parameter name
+class JetColl(Iterable[T]):
+    def Where(self, test) -> "JetColl[T]": ...
+class Evt:
+    def met(self) -> float: ...
+    def djet(self) -> DataJet: ...
+    def jets(self) -> JetColl[Jet]: ...
+def q_prop(ds): return ds.Select("lambda e: e.djet().attr['a'](1)")
+def q_func(ds): return ds.Select(lambda e: scale_impl_c09(e.met()))
+def q_func_nested(ds): return ds.Select(lambda e: e.jets().Select(lambda j: scale_impl_c09(j.pt(), by=3.0)))
+def q_own_kw(ds): return ds.Select("lambda e: e.jets().Where(test=lambda j: j.pt() > 30).Count()")
+'''
+
+
+def directed(ctx):
+    """three placements the random skeleton does not have: a parameterized property on a DATACLASS model class, a registered
+    function with a python body used from a python lambda, a model collection's own operator written with its own keyword"""
+    m = modgen.load(DIRECTED_SRC, "c09d")
+    want = {
+        "q_prop": ([("prop",)], ["prop"], "attr(1)", "['a']"),
+        "q_func": ([("func",)], ["func"], "scale_impl_c09(e.met(), 2.0)", None),
+        "q_func_nested": ([("method",), ("func",)], ["method", "func"], "scale_impl_c09(j.pt(), 3.0)", None),
+        "q_own_kw": ([("method",)], ["method"], "j.pt() > 30", None),
+    }
+    for name, (calls, mds, must_have, must_not_have) in want.items():
+        ctx.case(f"directed:{name}", True)
+        del m.LOG[:]
+        w = {"directed": name}
+        try:
+            s = getattr(m, name)(m.DS(m.Evt))
+        except Exception as e:
+            ctx.violation(f"directed:exc:{type(e).__name__}", f"{name}: {type(e).__name__}: {str(e)[:200]}", w)
+            continue
+        got_calls = sorted(c[:1] for c in m.LOG)
+        if got_calls != sorted(calls):
+            ctx.violation("directed:callback-invocations-differ", f"{name}: callbacks invoked {m.LOG}, expected one each of {calls}", w)
+            continue
+        text = astx.unparse(s.query_ast)
+        chain, node = [], s.query_ast.args[0]
+        while isinstance(node, ast.Call) and isinstance(node.func, ast.Name) and node.func.id == "MetaData":
+            chain.append(ast.literal_eval(node.args[1]).get("cb"))
+            node = node.args[0]
+        if sorted(chain) != sorted(mds):
+            ctx.violation("directed:metadata-not-on-the-source-chain", f"{name}: MetaData upstream of the operator {chain}, expected {mds}: {text[:200]}", w)
+            continue
+        if must_have not in text or (must_not_have and must_not_have in text):
+            ctx.violation("directed:emitted-call-site-differs", f"{name}: emitted {text[:240]} (expected to contain {must_have!r}" + (f" and not {must_not_have!r})" if must_not_have else ")"), w)
+            continue
+        ctx.count("directed-placements-checked")
+    modgen.unload(m)
+    modgen.cleanup()
+
+
 def shard_main(ctx):
     from func_adl import EventDataset
+
+    if ctx.shard == 0:
+        directed(ctx)
 
     class DS(EventDataset):
         async def execute_result_async(self, a, title=None):
@@ -440,6 +525,9 @@ def shard_main(ctx):
 
 
 def replay(ctx, witness):
+    if "directed" in witness:
+        directed(ctx)
+        return
     ctx.count("replay: re-running shard 0 of the quick workload (placements are regenerated from the seed)")
     N_CASES["replay"] = 250
     TIME_BUDGET["replay"] = 60
